@@ -67,6 +67,13 @@ def run(ctx, idx):
                and not (isinstance(st.value, ast.Call) and isinstance(st.value.func, ast.Attribute) and st.value.func.attr == "clean")]
     keyed_other = [x for x in own_nodes(dcl.node) if isinstance(x, ast.Subscript) and K.src(x.value).endswith(".valid_types") and not (isinstance(x.slice, ast.Name))]
     keyed_other += [x for x in own_nodes(dcl.node) if isinstance(x, ast.Call) and isinstance(x.func, ast.Attribute) and x.func.attr == "get" and K.src(x.func.value).endswith(".valid_types") and x.args and not isinstance(x.args[0], ast.Name)]
+    # a table re-keyed under other spellings (`names = {name.replace(" ", ""): t for name, t in self.valid_types.items()}`) and looked up
+    for st in own_nodes(dcl.node):
+        if isinstance(st, ast.Assign) and len(st.targets) == 1 and isinstance(st.targets[0], ast.Name) and isinstance(st.value, ast.DictComp) \
+                and "valid_types" in K.src(st.value.generators[0].iter) and not isinstance(st.value.key, ast.Name):
+            tn = st.targets[0].id
+            if any((isinstance(x, ast.Subscript) and isinstance(x.value, ast.Name) and x.value.id == tn) or (isinstance(x, ast.Call) and isinstance(x.func, ast.Attribute) and x.func.attr == "get" and isinstance(x.func.value, ast.Name) and x.func.value.id == tn) for x in own_nodes(dcl.node)):
+                keyed_other.append(st)
     transforms = bool(rebinds or keyed_other)
     raw_tests = []
     for t_ in ast.walk(d.execute.node):
